@@ -163,6 +163,8 @@ def end_run():
 
 def ensure_hashseed(value: str = '0'):
     """Re-exec the interpreter with a pinned PYTHONHASHSEED (set order is an input)."""
+    if os.environ.get('VERIF_ALLOW_HASHSEED'):
+        return
     if os.environ.get('PYTHONHASHSEED') != value:
         os.environ['PYTHONHASHSEED'] = value
         os.execv(sys.executable, [sys.executable] + sys.argv)
